@@ -8,18 +8,25 @@ import AgModel.Proofs.ClusterDec
 
 `Spec/Cluster.lean` defines a cluster of `n` composed model nodes (`PoolImpl` ∘ queue ∘ `Votor`, one per validator) driven
 by an adversarial network (`Valid`: unforgeability + "the hash binds the parent" are the only restrictions), the derived
-global history `histOf` and block tree `chainOf`. This file connects the two halves of C01:
+global history `histOf` and block tree `chainOf`. This file connects the two halves of C01 — **all stages are theorems**:
 
 * **stage 1** (`cluster_one_notar`, `cluster_notar_no_skip`, and the vote-local half of `cluster_fin_rule`): R1 and the
   vote-local part of R2, from the C05 theorems, for every correct node of every valid run;
 * **stage 2** (`cluster_certs_sound`): every certificate held by any pool of the cluster is a certificate of the
   derived history (thresholds of `Spec/Protocol.lean`, signers' votes in the history);
-* **stage 3** (`cluster_fin_rule`, `cluster_nf_rule`, `cluster_sf_rule`, `cluster_notar_rule_partial`): R2's certificate
-  clause, R3, R4 in full; R5 in full for slots inside a leader window, and for the first slot of a window **relative to**
-  `ReadyJustified` (every `ParentReady` event a correct Votor handled was for a certified parent with skip-certified
-  slots in between) — see the note at `ReadyJustified` for why this premise is not discharged and what was found;
-* **stage 4** (`cluster_rules_partial`, `cluster_setting_partial`, `cluster_agreement_partial`): all rules for every correct
-  validator; hence (`Props/C01.lean`) the blocks that the pools of *any* two nodes report finalized are on one chain.
+* **stage 3** (`cluster_fin_rule`, `cluster_nf_rule`, `cluster_sf_rule`, `cluster_notar_rule_partial` + `ready_justified`):
+  R2's certificate clause, R3, R4, and R5. R5 for the first slot of a leader window is first proved relative to
+  `ReadyJustified` (every `ParentReady` event a correct Votor handled was for a certified parent with skip-certified slots in
+  between; the `…_partial` theorems), and `ready_justified` then discharges that premise by induction along the run: the
+  implementation also derives `ParentReady` from finalizations (implicitly finalized parents, implicitly skipped slots), which
+  is justified only through the safety theorems applied to the *prefix* of the run (`Proofs/SpecLog.lean`) and because
+  Byzantine stake counts as signed in `histOf` (finding 1 at the end of this file);
+* **stage 4** (`cluster_rules`, `cluster_setting`, `cluster_agreement`, `cluster_logs_one_chain`,
+  `cluster_tracker_logs_one_chain`): all rules R1–R5 for every correct validator of every valid run; hence
+  (`Props/C01.lean`) the blocks that the pools / finality trackers of *any* two nodes report finalized are on one chain.
+
+Crashed validators are correct validators whose nodes receive no further events. The statements hold after every run, hence
+after every prefix: "never".
 -/
 namespace AgModel.Cluster
 open AgModel AgModel.Node AgModel.NodePanic AgModel.Pool AgModel.Spec
@@ -473,6 +480,31 @@ theorem cluster_logs_one_chain (c : Cfg) (evs : List Ev) (hv : Valid c (init c) 
   have hS := cluster_setting c evs hv hb
   have hpos := pos_of_byz c hb
   exact logs_one_chain hS x y ⟨b, finalizedAt_of_pool c evs hv hpos i b hf, hx⟩ ⟨b', finalizedAt_of_pool c evs hv hpos j b' hf', hy⟩
+
+/-- **The finalization logs of the nodes' finality trackers never conflict**: whenever the finality tracker inside the pool of
+    node `i` marks slot `s` as finalized or implicitly finalized with block `h`, and that of node `j` slot `s'` with `h'`
+    (directly, or through a finalized descendant along registered parent links), the two blocks lie on one chain of the block
+    tree, and are equal if `s = s'`. (Tracker entries are pruned as the watermark advances; the statement holds after every
+    prefix of every run.) -/
+theorem cluster_tracker_logs_one_chain (c : Cfg) (evs : List Ev) (hv : Valid c (init c) evs)
+    (hb : 5 * w (stakeFn c) (byz c) < total (stakeFn c)) (i j s s' h h' : ℕ)
+    (hi : (run (init c) evs i).pool.fin.status s = some (.finalized h) ∨
+          (run (init c) evs i).pool.fin.status s = some (.implFinalized h))
+    (hj : (run (init c) evs j).pool.fin.status s' = some (.finalized h') ∨
+          (run (init c) evs j).pool.fin.status s' = some (.implFinalized h')) :
+    (Anc (chainOf c) (Blk.mk' s h) (Blk.mk' s' h') ∨ Anc (chainOf c) (Blk.mk' s' h') (Blk.mk' s h)) ∧
+    (s = s' → Blk.mk' s h = Blk.mk' s' h') := by
+  have hS := cluster_setting c evs hv hb
+  have hpos := pos_of_byz c hb
+  have hR : RInv c (run (init c) evs) := (RInv.init c).run hpos evs (CInv.init c) hv
+  have li : InLog (stakeFn c) (chainOf c) (histOf c (run (init c) evs)) (Blk.mk' s h) :=
+    hi.elim (fun a => (hR i).1.1.fin s h a) (fun a => (hR i).1.1.impl s h a)
+  have lj : InLog (stakeFn c) (chainOf c) (histOf c (run (init c) evs)) (Blk.mk' s' h') :=
+    hj.elim (fun a => (hR j).1.1.fin s' h' a) (fun a => (hR j).1.1.impl s' h' a)
+  obtain ⟨a, b⟩ := logs_one_chain hS _ _ li lj
+  refine ⟨a, fun e => b ?_⟩
+  show (Blk.mk' s h).slot = (Blk.mk' s' h').slot
+  rw [Blk.mk'_slot, Blk.mk'_slot, e]
 
 /-! ## non-vacuity: a valid run with a Byzantine validator in which two pools report a block finalized -/
 namespace Example
